@@ -1306,6 +1306,8 @@ func E2c(p *load.Program, r *report.Report, sets IOSets) {
 						}
 						if condTestsError(cond, o) {
 							r.OK("E2c", key, p.Pos(phi.Pos()), "the I/O error is replaced by nil only under a test of that error")
+						} else if outer := identifiedAs(pred, call.Block(), o); outer != nil {
+							r.OK("E2c", key, p.Pos(phi.Pos()), "the I/O error is replaced by nil only inside the branch on which it has been identified as a specific value ("+outer.String()+")")
 						} else {
 							r.Bad("E2c", key, p.Pos(phi.Pos()), "an error that may come from the reader/writer is replaced by nil under a condition that does not look at it ("+cond.String()+"): a real failure is swallowed")
 						}
@@ -1349,6 +1351,60 @@ func controllingCond(b, stop *ssa.BasicBlock) ssa.Value {
 			viaF := d.Succs[1] == cur || d.Succs[1].Dominates(cur)
 			if viaT != viaF {
 				return iff.Cond
+			}
+		}
+		if d == stop {
+			return nil
+		}
+	}
+	return nil
+}
+
+// identifiedAs: some branch between stop and b (dominator chain) is taken on the edge on which err equals a specific non-nil value
+// (err == Sentinel, !(err != Sentinel), errors.Is(err, Sentinel)): everything below it only runs for that one error. A comparison
+// with nil does not count here — `if err != nil { if n > 0 { err = nil } }` looks at the error and still swallows every failure.
+func identifiedAs(b, stop *ssa.BasicBlock, err ssa.Value) ssa.Value {
+	same := func(v ssa.Value) bool {
+		if v == err {
+			return true
+		}
+		for _, l := range ssau.Leaves(v) {
+			if l == err {
+				return true
+			}
+		}
+		return false
+	}
+	isNil := func(v ssa.Value) bool { c, ok := v.(*ssa.Const); return ok && c.Value == nil }
+	for cur := b; cur != nil; cur = cur.Idom() {
+		d := cur.Idom()
+		if d == nil {
+			return nil
+		}
+		if iff, ok := d.Instrs[len(d.Instrs)-1].(*ssa.If); ok {
+			viaT := d.Succs[0] == cur || d.Succs[0].Dominates(cur)
+			viaF := d.Succs[1] == cur || d.Succs[1].Dominates(cur)
+			if viaT != viaF {
+				cond, want := iff.Cond, viaT
+				for {
+					u, ok := cond.(*ssa.UnOp)
+					if !ok || u.Op != token.NOT {
+						break
+					}
+					cond, want = u.X, !want
+				}
+				switch c := cond.(type) {
+				case *ssa.BinOp:
+					if (c.Op == token.EQL && want) || (c.Op == token.NEQ && !want) {
+						if (same(c.X) && !isNil(c.Y)) || (same(c.Y) && !isNil(c.X)) {
+							return iff.Cond
+						}
+					}
+				case *ssa.Call:
+					if n := ssau.CalleeName(&c.Call); n == "errors.Is" && want && len(c.Call.Args) == 2 && same(c.Call.Args[0]) && !isNil(c.Call.Args[1]) {
+						return iff.Cond
+					}
+				}
 			}
 		}
 		if d == stop {
